@@ -133,8 +133,9 @@ def write_evidence(prop, level, tier, seed, results, wall, nviol, engine, extra=
         "wall_s": round(wall, 2),
         "violations": nviol,
     }
-    os.makedirs(os.path.join(HOME, "evidence"), exist_ok=True)
-    p = os.path.join(HOME, "evidence", f"{prop}.json")
+    evdir = os.environ.get("VERIF_EVIDENCE_DIR") or os.path.join(HOME, "evidence")
+    os.makedirs(evdir, exist_ok=True)
+    p = os.path.join(evdir, f"{prop}.json")
     with open(p + ".tmp", "w") as f:
         json.dump(ev, f, indent=1, sort_keys=True)
     os.replace(p + ".tmp", p)
@@ -142,7 +143,7 @@ def write_evidence(prop, level, tier, seed, results, wall, nviol, engine, extra=
 
 
 def write_replay(prop, seed, index, case, violation):
-    d = os.path.join(HOME, "replays")
+    d = os.environ.get("VERIF_REPLAY_DIR") or os.path.join(HOME, "replays")
     os.makedirs(d, exist_ok=True)
     p = os.path.join(d, f"{prop}-{seed}-{index}.json")
     rec = {
